@@ -299,10 +299,48 @@ let cmd_probes () =
 let cmd_sentences () =
   List.iter (fun p -> print_endline (hex (string_of_bytes p))) (M.sentences ())
 
+(* ---- per-function correspondence: `fninputs [cap]` prints "<fn name>\t<hex input>" lines read off the grammar (standalone
+   sentences of every parser function, their prefixes, followers and one-byte substitutions); `fnrun` reads such lines
+   and prints the model's answer for that function on that buffer ---- *)
+let fn_name_list () = List.map string_of_coq_string (M.fn_names ())
+let cmd_fninputs () =
+  let cap = if Array.length Sys.argv > 2 then int_of_string Sys.argv.(2) else 300 in
+  let names = Array.of_list (fn_name_list ()) in
+  let followers = [""; "\r\n"; " "; ")"; "x"; "]"; "\""; "\r"] in
+  let subs = [' '; '('; ')'; 'x'; '\r'; '0'; '"'; '\\'; '{'] in
+  List.iter (fun (k, ws) ->
+    let name = names.(int_of_n k) in
+    let seen = Hashtbl.create 64 in
+    let count = ref 0 in
+    let emit s = if !count < cap && not (Hashtbl.mem seen s) then begin
+        Hashtbl.add seen s (); incr count; print_endline (name ^ "\t" ^ hex s) end in
+    let ws = List.map string_of_bytes ws in
+    (* whole sentences with every follower first, then prefixes, then substitutions *)
+    List.iter (fun w -> List.iter (fun f -> emit (w ^ f)) followers) ws;
+    List.iter (fun w -> for l = 0 to String.length w - 1 do emit (String.sub w 0 l) done) ws;
+    List.iter (fun w ->
+      for p = 0 to min (String.length w) 48 - 1 do
+        List.iter (fun c -> if w.[p] <> c then emit (String.sub w 0 p ^ String.make 1 c ^ String.sub w (p + 1) (String.length w - p - 1) ^ "\r\n")) subs
+      done) ws)
+    (M.fn_sentences ())
+let cmd_fnrun () =
+  let tbl = Hashtbl.create 256 in
+  List.iteri (fun i n -> Hashtbl.replace tbl n i) (fn_name_list ());
+  iter_lines (fun line ->
+    match String.index_opt line '\t' with
+    | None -> print_endline "BADCASE"
+    | Some t ->
+      let name = String.sub line 0 t and h = String.sub line (t + 1) (String.length line - t - 1) in
+      match Hashtbl.find_opt tbl name with
+      | None -> print_endline "NOFN"
+      | Some k -> print_endline (show_res (M.run_fn (n_of_int k) (bytes_of_string (unhex h)))))
+
 let () =
   match Sys.argv.(1) with
   | "probes" -> cmd_probes ()
   | "sentences" -> cmd_sentences ()
+  | "fninputs" -> cmd_fninputs ()
+  | "fnrun" -> cmd_fnrun ()
   | "framed" -> cmd_framed ()
   | "client" -> cmd_client ()
   | "parse" -> cmd_parse ()
